@@ -43,33 +43,36 @@ func (c *collector) trace(actor, ev string, a, b, x int64) {
 	c.mu.Unlock()
 }
 
-func opName(op optimize.Operation) (string, int) {
+// opName names an Operation; for an evaluation it also tells which of Func, Grad, Hess it includes.
+func opName(op optimize.Operation) (name string, f, g, h int) {
 	const (
 		fn = optimize.FuncEvaluation
 		gr = optimize.GradEvaluation
 		he = optimize.HessEvaluation
 	)
+	bit := func(m optimize.Operation) int {
+		if op&m != 0 {
+			return 1
+		}
+		return 0
+	}
 	switch {
 	case op == optimize.NoOperation:
-		return "noop", 0
+		return "noop", 0, 0, 0
 	case op == optimize.InitIteration:
-		return "init", 0
+		return "init", 0, 0, 0
 	case op == optimize.PostIteration:
-		return "post", 0
+		return "post", 0, 0, 0
 	case op == optimize.MajorIteration:
-		return "major", 0
+		return "major", 0, 0, 0
 	case op == optimize.MethodDone:
-		return "mdone", 0
+		return "mdone", 0, 0, 0
 	case op&^(fn|gr|he) == 0:
-		f := 0
-		if op&fn != 0 {
-			f = 1
-		}
-		return "eval", f
+		return "eval", bit(fn), bit(gr), bit(he)
 	case op == he<<1:
-		return "sigdone", 0
+		return "sigdone", 0, 0, 0
 	}
-	return fmt.Sprintf("op%d", int(op)), 0
+	return fmt.Sprintf("op%d", int(op)), 0, 0, 0
 }
 
 func statusName(s optimize.Status) string {
@@ -78,6 +81,10 @@ func statusName(s optimize.Status) string {
 		return "none"
 	case optimize.FunctionEvaluationLimit:
 		return "flimit"
+	case optimize.GradientEvaluationLimit:
+		return "glimit"
+	case optimize.HessianEvaluationLimit:
+		return "hlimit"
 	case optimize.IterationLimit:
 		return "ilimit"
 	case optimize.MethodConverge:
@@ -140,11 +147,32 @@ type scenario struct {
 	NeedHess   bool
 	Concurrent int
 	FLimit     int
+	GLimit     int // Settings.GradEvaluations
+	HLimit     int // Settings.HessEvaluations
 	ILimit     int
 	RecErrAt   int // Recorder returns an error at this Record call (0: never)
 	StatusAt   int // Problem.Status terminates at this call (0: never)
+	ConvAt     int // the Converger reports FunctionConvergence at this Converged call (0: default converger)
 	Dim        int
 	Local      bool
+
+	// histories that use ONE Method value for several Minimize calls (reuse.go)
+	M    optimize.Method // the value to use (nil: a fresh one from Method())
+	Prob string          // "" / "P1": the planted quadratic; "P2": the narrow valley
+	Obj  int             // identity of the Method value
+	Seq  int             // 1 + number of earlier Minimize calls made with it
+}
+
+// convAt is a Converger that reports convergence at a chosen call.
+type convAt struct{ n, at int }
+
+func (c *convAt) Init(int) { c.n = 0 }
+func (c *convAt) Converged(*optimize.Location) optimize.Status {
+	c.n++
+	if c.n >= c.at {
+		return optimize.FunctionConvergence
+	}
+	return optimize.NotTerminated
 }
 
 type recorder struct {
@@ -164,15 +192,28 @@ type outEv map[string]any
 
 type runRec struct {
 	Name   string             `json:"name"`
+	Obj    int                `json:"obj"`
+	Seq    int                `json:"seq"`
 	NT     int                `json:"nt"`
 	FL     int                `json:"fl"`
+	GL     int                `json:"gl"`
+	HL     int                `json:"hl"`
 	IL     int                `json:"il"`
 	Logs   map[string][]outEv `json:"logs"`
 	Result map[string]any     `json:"result"`
 }
 
+// callCounts counts the callbacks really made.
+type callCounts struct{ f, g, h atomic.Int64 }
+
+// observer is told every (x, value) pair the objective produced.
+type observer struct {
+	f func(x []float64)
+	g func(x, grad []float64)
+}
+
 // planted quadratic f(x) = 1/2 (x-x*)^T A (x-x*) with integer SPD A and integer x*
-func quadratic(dim int, calls *atomic.Int64, yield func(), seen func([]float64)) (optimize.Problem, []float64) {
+func quadratic(dim int, calls *callCounts, yield func(), obs observer) (optimize.Problem, []float64) {
 	A := mat.NewSymDense(dim, nil)
 	for i := 0; i < dim; i++ {
 		for j := i; j < dim; j++ {
@@ -198,8 +239,8 @@ func quadratic(dim int, calls *atomic.Int64, yield func(), seen func([]float64))
 	}
 	p := optimize.Problem{
 		Func: func(x []float64) float64 {
-			calls.Add(1)
-			seen(x)
+			calls.f.Add(1)
+			obs.f(x)
 			yield()
 			v := d(x)
 			var av mat.VecDense
@@ -207,6 +248,7 @@ func quadratic(dim int, calls *atomic.Int64, yield func(), seen func([]float64))
 			return 0.5 * mat.Dot(v, &av)
 		},
 		Grad: func(g, x []float64) {
+			calls.g.Add(1)
 			yield()
 			v := d(x)
 			var av mat.VecDense
@@ -214,13 +256,63 @@ func quadratic(dim int, calls *atomic.Int64, yield func(), seen func([]float64))
 			for i := range g {
 				g[i] = av.AtVec(i)
 			}
+			obs.g(x, g)
 		},
 		Hess: func(h *mat.SymDense, x []float64) {
+			calls.h.Add(1)
 			yield()
 			h.CopySym(A)
 		},
 	}
 	return p, xs
+}
+
+// narrow valley f(x) = sum_i d_i x_i^2 with d = (1, 1000, 10, ...): the first trial step of a
+// gradient method from the start point overshoots the valley, so that a line search has to back off
+func valley(dim int, calls *callCounts, yield func(), obs observer) optimize.Problem {
+	dd := []float64{1, 1000, 10, 100, 3}[:dim]
+	return optimize.Problem{
+		Func: func(x []float64) float64 {
+			calls.f.Add(1)
+			obs.f(x)
+			yield()
+			var f float64
+			for i, v := range x {
+				f += dd[i] * v * v
+			}
+			return f
+		},
+		Grad: func(g, x []float64) {
+			calls.g.Add(1)
+			yield()
+			for i, v := range x {
+				g[i] = 2 * dd[i] * v
+			}
+			obs.g(x, g)
+		},
+		Hess: func(h *mat.SymDense, x []float64) {
+			calls.h.Add(1)
+			yield()
+			for i := range x {
+				for j := i; j < len(x); j++ {
+					if i == j {
+						h.SetSym(i, i, 2*dd[i])
+					} else {
+						h.SetSym(i, j, 0)
+					}
+				}
+			}
+		},
+	}
+}
+
+// problem builds the objective of a scenario and its start point.
+func problem(kind string, dim int, calls *callCounts, yield func(), obs observer) (optimize.Problem, []float64) {
+	if kind == "P2" {
+		return valley(dim, calls, yield, obs), []float64{1, 0.001, 0.5, -0.25, 2}[:dim]
+	}
+	p, _ := quadratic(dim, calls, yield, obs)
+	return p, []float64{3, -2, 1.5, -0.5, 2}[:dim]
 }
 
 func scenarios(seed int64, thorough bool) []scenario {
@@ -291,7 +383,7 @@ func runScenario(sc scenario, seed int64, sum *core.Summary) *runRec {
 		verifhook.SetTracer(col.trace)
 		defer verifhook.SetTracer(nil)
 	}
-	var calls atomic.Int64
+	var calls callCounts
 	yrng := rand.New(rand.NewSource(seed))
 	var ymu sync.Mutex
 	yield := func() {
@@ -304,6 +396,7 @@ func runScenario(sc scenario, seed int64, sum *core.Summary) *runRec {
 	}
 	var smu sync.Mutex
 	evaluated := map[string]bool{}
+	gradAt := map[string]string{} // the gradient the objective returned at each point it was asked for
 	xkey := func(x []float64) string {
 		var b strings.Builder
 		for _, v := range x {
@@ -311,12 +404,18 @@ func runScenario(sc scenario, seed int64, sum *core.Summary) *runRec {
 		}
 		return b.String()
 	}
-	p, _ := quadratic(sc.Dim, &calls, yield, func(x []float64) {
-		smu.Lock()
-		evaluated[xkey(x)] = true
-		smu.Unlock()
-	})
-	pure, _ := quadratic(sc.Dim, new(atomic.Int64), func() {}, func([]float64) {})
+	p, init0 := problem(sc.Prob, sc.Dim, &calls, yield, observer{
+		f: func(x []float64) {
+			smu.Lock()
+			evaluated[xkey(x)] = true
+			smu.Unlock()
+		},
+		g: func(x, g []float64) {
+			smu.Lock()
+			gradAt[xkey(x)] = xkey(g)
+			smu.Unlock()
+		}})
+	pure, _ := problem(sc.Prob, sc.Dim, new(callCounts), func() {}, observer{func([]float64) {}, func(_, _ []float64) {}})
 	if !sc.NeedGrad {
 		p.Grad = nil
 	}
@@ -332,16 +431,24 @@ func runScenario(sc scenario, seed int64, sum *core.Summary) *runRec {
 			return optimize.NotTerminated, nil
 		}
 	}
-	settings := &optimize.Settings{Concurrent: sc.Concurrent, FuncEvaluations: sc.FLimit, MajorIterations: sc.ILimit}
+	settings := &optimize.Settings{Concurrent: sc.Concurrent, FuncEvaluations: sc.FLimit, GradEvaluations: sc.GLimit,
+		HessEvaluations: sc.HLimit, MajorIterations: sc.ILimit}
 	if sc.RecErrAt > 0 {
 		settings.Recorder = &recorder{errAt: sc.RecErrAt + 1} // the first Record is InitIteration
+	}
+	if sc.ConvAt > 0 {
+		settings.Converger = &convAt{at: sc.ConvAt}
 	}
 	base := runtime.NumGoroutine()
 	var res *optimize.Result
 	var err error
-	px := &proxy{Method: sc.Method(), col: col}
+	m := sc.M
+	if m == nil {
+		m = sc.Method()
+	}
+	px := &proxy{Method: m, col: col}
 	out := core.CallTimeout(20*time.Second, func() {
-		res, err = optimize.Minimize(p, []float64{3, -2}, settings, px)
+		res, err = optimize.Minimize(p, append([]float64(nil), init0...), settings, px)
 	})
 	if out.Hung {
 		sum.Fail("minimize:"+strings.Split(sc.Name, "/")[0]+":hang", "Minimize did not return within 20s: "+sc.Name, map[string]any{"scenario": sc.Name})
@@ -382,9 +489,14 @@ func runScenario(sc scenario, seed int64, sum *core.Summary) *runRec {
 		fmt.Sscanf(wnames[j], "W#%d", &y)
 		return x < y
 	})
-	rr := &runRec{Name: sc.Name, NT: len(wnames), FL: sc.FLimit, IL: sc.ILimit, Logs: map[string][]outEv{}}
+	seq := sc.Seq
+	if seq == 0 {
+		seq = 1
+	}
+	rr := &runRec{Name: sc.Name, Obj: sc.Obj, Seq: seq, NT: len(wnames), FL: sc.FLimit, GL: sc.GLimit, HL: sc.HLimit, IL: sc.ILimit,
+		Logs: map[string][]outEv{}}
 	conv := func(e rawEv) outEv {
-		o := outEv{"e": e.ev, "op": "none", "tok": 0, "f": 0, "status": "none", "nf": 0, "ni": 0}
+		o := outEv{"e": e.ev, "op": "none", "tok": 0, "f": 0, "g": 0, "h": 0, "status": "none", "nf": 0, "ni": 0}
 		switch e.ev {
 		case "SProc":
 			o["status"], o["nf"], o["ni"] = statusName(optimize.Status(e.a)), e.b, e.c
@@ -394,8 +506,8 @@ func runScenario(sc scenario, seed int64, sum *core.Summary) *runRec {
 			o["nf"], o["ni"] = e.a, e.b
 		case "MResClosed", "MClose", "DDone", "DExit", "WClosed", "WSentDone", "SCloseResults":
 		default:
-			name, f := opName(optimize.Operation(e.a))
-			o["op"], o["f"], o["tok"] = name, f, tokOf(e.b)
+			name, f, g, h := opName(optimize.Operation(e.a))
+			o["op"], o["f"], o["g"], o["h"], o["tok"] = name, f, g, h, tokOf(e.b)
 		}
 		return o
 	}
@@ -428,15 +540,21 @@ func runScenario(sc scenario, seed int64, sum *core.Summary) *runRec {
 		}
 		return 0
 	}
-	init0 := []float64{3, -2}
+	// "the reported gradient is the gradient at the reported X": the objective wrapper remembered the
+	// gradient it returned for each point of THIS run
+	gradOK := res.Gradient != nil && gradAt[xkey(res.X)] == xkey(res.Gradient)
 	rr.Result = map[string]any{
-		"nf": res.Stats.FuncEvaluations, "ni": res.Stats.MajorIterations, "calls": calls.Load(),
+		"nf": res.Stats.FuncEvaluations, "ni": res.Stats.MajorIterations, "calls": calls.f.Load(),
+		"ng": res.Stats.GradEvaluations, "nh": res.Stats.HessEvaluations,
+		"calls_g": calls.g.Load(), "calls_h": calls.h.Load(),
 		"status": statusName(res.Status), "goroutines": leaked,
-		"fx_ok":   b2i(math.Float64bits(pure.Func(res.X)) == math.Float64bits(res.F)),
-		"x_eval":  b2i(evaluated[xkey(res.X)]),
-		"noworse": b2i(res.F <= pure.Func(init0)),
-		"local":   b2i(sc.Local),
-		"finf":    b2i(math.IsInf(res.F, 1)),
+		"fx_ok":    b2i(math.Float64bits(pure.Func(res.X)) == math.Float64bits(res.F)),
+		"x_eval":   b2i(evaluated[xkey(res.X)]),
+		"noworse":  b2i(res.F <= pure.Func(init0)),
+		"local":    b2i(sc.Local),
+		"finf":     b2i(math.IsInf(res.F, 1)),
+		"has_grad": b2i(res.Gradient != nil),
+		"grad_ok":  b2i(gradOK),
 	}
 	return rr
 }
@@ -445,6 +563,9 @@ func runScenario(sc scenario, seed int64, sum *core.Summary) *runRec {
 func recordMinimize(out *core.Out, args []string, seed int64, sum *core.Summary) error {
 	nt, thorough := 0, false
 	for _, a := range args {
+		if a == "reuse" {
+			return recordReuse(out, args, seed, sum)
+		}
 		if strings.HasPrefix(a, "nt=") {
 			fmt.Sscan(a[3:], &nt)
 		}
